@@ -186,7 +186,7 @@ Lemma positions_ok :
   BC_CARDS = BC_DECK /\
   BC_CARD_NAMES = map (fun '(r, s) => const_name r s) SPEC_DECK_RS /\
   BC_CARD_NAMES = CN_CARD_NAMES /\
-  BC_BLANK = 0 /\ BC_ALL = 2 ^ 52 - 1 /\ BC_OVERFLOW = 2 ^ 64 - 2 ^ 52.
+  BC_BLANK = 0.
 Proof.
   split; [reflexivity|]. split; [exact BC_DECK_nth|]. split; [vm_compute; reflexivity|].
   split; [intros i Hi; now rewrite from_ckc_deck, BC_DECK_nth|].
